@@ -134,6 +134,11 @@ def nested_populate(rec, part, depth, n, zspec, aspec, choices):
                 if ch == "skip-subtree":
                     cnt[0] += 1
                     continue
+                if ch == "touch-subtree":
+                    # the body inserts a path below the offered sub-fiber itself (an insertion at depth) and writes nothing
+                    cnt[0] += 1
+                    zr.getPayloadRef(*([0] * (1 if d + 2 < depth else 1)))
+                    continue
                 walk(zr, ar, d + 1)
             probs = rb_problems(z)
             # inside a populate loop the offered (possibly still empty) sub-fibers are on top of the rank lists: RB must hold
@@ -182,7 +187,7 @@ def run(tier, seed):
         check_history(rec, "random-history", kind, depth, n, spec, ops)
     # nested populate loops
     bodies = [["assign"], ["leave"], ["acc", "leave"], ["reset", "assign"], ["leave", "assign", "leave"], ["skip-subtree", "assign"],
-              ["assign", "skip-subtree", "leave"]]
+              ["assign", "skip-subtree", "leave"], ["touch-subtree"], ["touch-subtree", "assign", "leave"], ["leave", "touch-subtree"]]
     for depth, n, lim in ((2, 2, 1500 if tier == "quick" else None), (3, 2, 300 if tier == "quick" else 4000)):
         zs = list(specs(depth, n, vals=(0, 1), sub_limit=6)) if depth == 3 else d2
         as_ = zs
